@@ -432,6 +432,22 @@ impl<'a> LazyValueRef<'a> {
         Ok(unsafe { &mut *raw })
     }
 
+    /// A string of `len` bytes starting at the cursor. The extent is checked against the input
+    /// (by subtraction, so it cannot overflow): a header announcing more bytes than the input
+    /// holds is a read error, not a string.
+    fn new_string(cursor: &Cursor, len: usize) -> Result<(Self, Option<usize>), ErrorCode> {
+        if len > cursor.length - cursor.position {
+            return Err(ErrorCode::ReadError);
+        }
+        Ok((
+            Self::String(StringRef {
+                ptr: cursor.position,
+                len,
+            }),
+            Some(cursor.position + len),
+        ))
+    }
+
     /// Create a new lazy value reference from a byte slice and a position.
     ///
     /// The 2-tuple in the Ok variant contains the lazy value reference as well
@@ -490,43 +506,19 @@ impl<'a> LazyValueRef<'a> {
             // String types
             Marker::FixStr(len) => {
                 let len = len as usize;
-                Ok((
-                    Self::String(StringRef {
-                        ptr: cursor.position,
-                        len,
-                    }),
-                    Some(cursor.position + len),
-                ))
+                Self::new_string(&cursor, len)
             }
             Marker::Str8 => {
                 let len = cursor.read_u8().map(|n| n as usize)?;
-                Ok((
-                    Self::String(StringRef {
-                        ptr: cursor.position,
-                        len,
-                    }),
-                    Some(cursor.position + len),
-                ))
+                Self::new_string(&cursor, len)
             }
             Marker::Str16 => {
                 let len = cursor.read_u16().map(|n| n as usize)?;
-                Ok((
-                    Self::String(StringRef {
-                        ptr: cursor.position,
-                        len,
-                    }),
-                    Some(cursor.position + len),
-                ))
+                Self::new_string(&cursor, len)
             }
             Marker::Str32 => {
                 let len = cursor.read_u32().map(|n| n as usize)?;
-                Ok((
-                    Self::String(StringRef {
-                        ptr: cursor.position,
-                        len,
-                    }),
-                    Some(cursor.position + len),
-                ))
+                Self::new_string(&cursor, len)
             }
 
             // Map types
